@@ -1310,7 +1310,9 @@ fn run_enum(w: &World, members: &str, out: &mut Out, hist: &mut Hist) {
 /// members of a random enum definition
 fn gen_enum(rng: &mut Rng) -> Vec<String> {
     let n = rng.range(1, 6) as usize;
-    let small: &[&str] = &["0", "1", "2", "5", "-1", "-7", "(int)3", "(int)-2", "4u", "0u", "true", "false", "E0C", "E1B", "31", "100"];
+    let small: &[&str] = &["0", "1", "2", "5", "-1", "-7", "(int)3", "(int)-2", "4u", "0u", "true", "false", "E0C", "E1B", "31", "100",
+                           "-2147483648", "-2147483649", "2147483647", "2147483648", "4294967295", "4294967296", "4294967295u",
+                           "(int)2147483647", "(int)-2147483648", "E0M", "E1M"];
     let mut ms = Vec::new();
     for i in 0..n {
         if rng.chance(2, 5) {
@@ -1551,7 +1553,8 @@ const SRC_ATOMS: &[(&str, &[&str])] = &[
     ("bool", &["true", "false"]),
     ("lit", &["0", "1", "2", "3", "4", "255", "256", "5", "31", "32", "33", "127", "128", "2147483647", "2147483648",
               "4294967295", "4294967296", "9223372036854775807", "9223372036854775808",
-              "18446744073709551615", "0x7fffffff", "0xFFFFFFFC", "017"]),
+              "18446744073709551615", "0x7fffffff", "0xFFFFFFFC", "017", "-1", "-2147483648", "-2147483649",
+              "-4294967295", "-4294967296", "-9223372036854775808", "-18446744073709551615", "18446744073709551616"]),
     ("int", &["(int)0", "(int)1", "(int)-1", "(int)31", "(int)32", "(int)2147483647",
               "(int)-2147483648", "(int)46341", "gI", "(int)0xffffffff", "(int)5", "(int)2", "(int)4", "(int)255",
               "(int)256", "NS::nI", "gN", "min(1, 2)", "(true ? 1 : 2)", "int(3)", "int2(1, 2).x", "cbM", "gS.x", "gA[1]",
